@@ -7,7 +7,8 @@ SPEC = dict(
     design_ref="DESIGN.md §5 C01",
     technique="Lean 4: lawfulness of every lattice type constructor (composable, so all nestings) + differential correspondence with the real crate",
     level_text=("Theorems: for every type of the universe LTy (Max/Min over u8..u64 and bool, unit, Conflict, SetUnion, MapUnion, "
-                "WithBot, WithTop, Pair = derive(Lattice) on two fields, DomPair over a total key, VecUnion, at every nesting depth) merge is closed on "
+                "WithBot, WithTop, Pair and a three-field #[derive(Lattice)] struct (proved to compute the functions of nested Pairs), "
+                "DomPair over a total key, VecUnion, at every nesting depth) merge is closed on "
                 "well-formed values, commutative, associative, idempotent and a congruence up to the semantic equality, and "
                 "LatticeFrom is the identity (so cross-representation Merge<Other> is the self merge); proved once per constructor "
                 "(`LawfulA`, HvLat/Laws/*.lean) and lifted by induction on the type. Point merges only equal values. The model is "
@@ -21,8 +22,7 @@ SPEC = dict(
                 "WithBot/WithTop/DomPair of such), using the comparison laws of the key (LawfulB); for a partially ordered key a "
                 "concrete non-associative triple is proved (domPair_not_assoc_witness) and the harness keeps two such types in the "
                 "correspondence only. "
-                "PARTIAL: union-find and the tombstone lattices are covered by C04/C05, not here; derive(Lattice) is modelled for "
-                "two fields (Pair) only."),
+                "PARTIAL: union-find and the tombstone lattices are covered by C04/C05, not here."),
     level_note=("Trusted: Lean kernel + propext/Classical.choice/Quot.sound; hash/btree containers modelled as duplicate-free lists "
                 "(insert-if-absent / overwrite), printing canonicalised by sorting; element types are u32 keys/items (Hash/Eq coherence "
                 "of element types not modelled); well-formedness (duplicate-free VecSet/ArraySet/VecMap/ArrayMap inputs) is the "
